@@ -7,6 +7,7 @@ from __future__ import annotations
 
 import copy
 import math
+import os
 import pickle
 from typing import Any, Dict, List, Optional
 
@@ -108,6 +109,8 @@ def _opaque_pool() -> list:
       (A, ident),
       (Typed(items=[1, 2], opts=dict(k=3, s='q'), t=(1, 'a')), sym_eq),
       (sample_functor(2), sym_eq),
+      (Typed.partial(opts=dict(k=2)), sym_eq),
+      (pg.oneof([1, B.partial(x=(A.partial(),))]), sym_eq),
       (pg.oneof([1, A(x=2)]), sym_eq),
       (pg.typing.Any(annotation=int), plain_eq),
   ]
@@ -127,6 +130,7 @@ def extra_pool() -> list:
       ('object_with_typed_fields', Typed(items=[1], opts=dict(k=1, s=None), t=None), sym_eq),
   ]
 UNKNOWN_LEAF = 999
+MISSING = 14
 
 
 class Conc:
@@ -149,6 +153,8 @@ class Conc:
   def build(self, v: dict) -> Any:
     t = v['t']
     if t == 'leaf':
+      if v['a'] == MISSING:
+        return pg.MISSING_VALUE          # only ever the value of an object field (see the 'obj' case)
       return self.opaque if v['a'] == 20 else self.leaf[v['a']]
     kids = [self.build(x) for x in v['xs']]
     if t == 'list':
@@ -158,11 +164,16 @@ class Conc:
     if t == 'dict':
       return pg.Dict({self.key[k]: x for k, x in zip(v['ks'], kids)})
     if t == 'obj':
-      return A(x=kids[0]) if v['a'] == 1 else B(x=kids[0], y=kids[1])
+      names = ['x'] if v['a'] == 1 else ['x', 'y']
+      given = {n: k for n, k, x in zip(names, kids, v['xs']) if not (x['t'] == 'leaf' and x['a'] == MISSING)}
+      cls = A if v['a'] == 1 else B
+      return cls(**given) if len(given) == len(names) else cls.partial(**given)
     raise ValueError(t)
 
   # concrete -> abstract
   def leaf_atom(self, x) -> int:
+    if _safe(lambda: pg.MISSING_VALUE == x) and not isinstance(x, (str, int, float, bool, type(None))):
+      return MISSING
     if x is self.opaque or (type(x) is type(self.opaque) and _safe(lambda: self.opaque_eq(self.opaque, x))):
       return 20
     for a, c in self.leaf.items():
@@ -272,12 +283,41 @@ def same_behaviour(orig, back) -> bool:
   return True
 
 
+def has_missing(v: dict) -> bool:
+  """The abstract value holds a partial object somewhere (pg.is_partial does not look into tuples)."""
+  return (v['t'] == 'leaf' and v['a'] == MISSING) or any(has_missing(x) for x in v['xs'])
+
+
+def has_atom(v: dict, a: int) -> bool:
+  return (v['t'] == 'leaf' and v['a'] == a) or any(has_atom(x, a) for x in v['xs'])
+
+
+_LOAD_DIR = '/verif/.work/store'
+
+
+def _save_load(v):
+  os.makedirs(_LOAD_DIR, exist_ok=True)
+  path = os.path.join(_LOAD_DIR, f'codec-{os.getpid()}.json')
+  try:
+    pg.save(v, path)
+    return pg.load(path)
+  finally:
+    if os.path.exists(path):
+      os.remove(path)
+
+
+# way -> fn(value, partial: bool).  json / json_str ask for allow_partial only when the value is partial (what a caller
+# would do); the *_partial ways and load (pg.save + pg.load, which always loads with allow_partial=True) ask for it always.
 WAYS = {
-    'json': lambda v: pg.from_json(pg.to_json(v)),
-    'json_str': lambda v: pg.from_json_str(pg.to_json_str(v)),
-    'pickle': lambda v: pickle.loads(pickle.dumps(v)),
-    'deepcopy': copy.deepcopy,
+    'json': lambda v, p: pg.from_json(pg.to_json(v), allow_partial=p),
+    'json_str': lambda v, p: pg.from_json_str(pg.to_json_str(v), allow_partial=p),
+    'json_partial': lambda v, p: pg.from_json(pg.to_json(v), allow_partial=True),
+    'json_str_partial': lambda v, p: pg.from_json_str(pg.to_json_str(v), allow_partial=True),
+    'load': lambda v, p: _save_load(v),
+    'pickle': lambda v, p: pickle.loads(pickle.dumps(v)),
+    'deepcopy': lambda v, p: copy.deepcopy(v),
 }
+FIRST_CONC_ONLY = ('json_partial', 'json_str_partial', 'load')     # these ways are run on the first concretisation only
 
 
 def observe(v: dict, vi: int, c: int, way: str) -> dict:
@@ -292,7 +332,7 @@ def observe(v: dict, vi: int, c: int, way: str) -> dict:
     row['err'] = f'build: {type(e).__name__}: {str(e)[:100]}'
     return row
   try:
-    back = WAYS[way](orig)
+    back = WAYS[way](orig, has_missing(v) or (has_atom(v, 20) and bool(_safe(lambda: pg.is_partial(conc.opaque)))))
   except Exception as e:  # pylint: disable=broad-except
     row['err'] = f'{type(e).__name__}: {str(e)[:120]}'
     return row
